@@ -43,6 +43,7 @@ class Unit(object):
         self.result = result                 # value spec of the result (for call-by-contract)
         self.callee_units = callee_units or {}   # (class, method) -> Unit : call sites use that unit's contract
         self.defaults = {}
+        self.spec_funcs = {}                     # name -> z3 function usable in contract expressions
         self.ghost_params = []                   # params that are ghost state: bound from the caller's like-named ghost
         self.global_callees = {}                 # bare-name callees (module functions): name -> VFun
         self.defs = defs or {}
@@ -121,8 +122,11 @@ class Executor(EvalMixin, MethodsMixin, ExecMixin):
         self.install_folds()
         for dn, (dargs, dbody) in unit.defs.items():
             self.special_forms[dn] = self.make_macro(dn, dargs, parse_expr(dbody))
+        for fname, zf in unit.spec_funcs.items():
+            self.special_forms[fname] = self.make_specfun(zf)
         self.assumptions = set()
         self.uses_join = False
+        self._mod_cache = {}
 
     # -- safety with try/except awareness
     def safety(self, st, exc, goal, node, note=""):
@@ -173,6 +177,9 @@ class Executor(EvalMixin, MethodsMixin, ExecMixin):
                 for dn, (dargs, dbody) in cu.defs.items():
                     if dn not in self.special_forms:
                         self.special_forms[dn] = self.make_macro(dn, dargs, parse_expr(dbody))
+                for fname, zf in cu.spec_funcs.items():
+                    if fname not in self.special_forms:
+                        self.special_forms[fname] = self.make_specfun(zf)
                 was = (self.in_contract, self.cur_line, self.ctag)
                 self.in_contract = True
                 self.cur_line = getattr(node, "lineno", 0) + self.line_offset
@@ -220,6 +227,21 @@ class Executor(EvalMixin, MethodsMixin, ExecMixin):
                 f[k] = self.snapshot(x, st) if isinstance(x, VRef) and isinstance(st.heap[x.oid], (HList, HCList, HDict)) else x
             return st.alloc(HObj(cell.cls, f))
         return st.alloc(cell)
+
+    def make_specfun(self, zf):
+        def sf(node, st):
+            args = [self.ev(a, st).e for a in node.args]
+            r = zf(*args) if args else zf
+            if z3.is_expr(r):
+                srt = r.sort()
+                if srt == StrS:
+                    return VStr(r)
+                if srt == IntS:
+                    return VInt(r)
+                if srt == BoolS:
+                    return VBool(r)
+            raise OutOfSubset("spec function result sort")
+        return sf
 
     def make_macro(self, name, argnames, body):
         def macro(node, st):
